@@ -569,8 +569,32 @@ def d2(ctx, prog, dispatch_call):
 WIDTH = {'uint8': 8, 'uint16': 16, 'uint32': 32, 'uint64': 64, 'int8': 8, 'int16': 16, 'int32': 32, 'int64': 64, 'bool': 1, 'bool_': 1}
 
 
+def typed_width(e):
+    """bit width of an expression whose static type is a fixed-width numpy scalar (np.uint8(1), its shifts / bit operations with
+    plain Python integers - which numpy keeps in that type, so a shift past the width gives 0), else None"""
+    if isinstance(e, ast.Call) and isinstance(e.func, ast.Attribute) and norm(e.func.value) in ('_np', 'np', 'numpy'):
+        name = e.func.attr
+        if name in WIDTH and len(e.args) == 1:
+            return WIDTH[name]
+        if name in ('left_shift', 'right_shift', 'bitwise_and', 'bitwise_or', 'bitwise_xor') and len(e.args) == 2:
+            ws = [typed_width(a) for a in e.args]
+            return max([w for w in ws if w], default=None) if any(ws) and all(w or isinstance(a, (ast.Constant, ast.Attribute, ast.BinOp)) for w, a in zip(ws, e.args)) else None
+    if isinstance(e, ast.BinOp) and isinstance(e.op, (ast.LShift, ast.RShift, ast.BitAnd, ast.BitOr, ast.BitXor)):
+        ws = [typed_width(e.left), typed_width(e.right)]
+        return max([w for w in ws if w], default=None)
+    return None
+
+
 def bit_eval(e, x, b, data, width=16):
     """value of a pure bit expression for the input word x (held in `width` bits) and bit number b"""
+    tw = typed_width(e)
+    if tw and (isinstance(e, ast.BinOp) or (isinstance(e, ast.Call) and e.func.attr in ('left_shift', 'right_shift', 'bitwise_and', 'bitwise_or', 'bitwise_xor'))):
+        v = _bit_eval(e, x, b, data, width)
+        return v & ((1 << tw) - 1)
+    return _bit_eval(e, x, b, data, width)
+
+
+def _bit_eval(e, x, b, data, width=16):
     if isinstance(e, ast.Constant) and isinstance(e.value, (int, bool)):
         return int(e.value)
     if isinstance(e, ast.Name):
@@ -714,6 +738,23 @@ def reducer_term(prog, f, e, data, axis, _depth=0):
         post, e = 'neg', e.operand
     if not isinstance(e, ast.Call):
         return None
+    # a private one-return helper of the module (`_max_ignoring_nan(data, axis)`): read through it
+    if isinstance(e.func, ast.Name) and _depth < 3 and not e.keywords:
+        r0 = prog.resolve(f.mod, e.func)
+        if r0 and r0[0] == 'func' and r0[1].mod is f.mod and not prog.decorators(r0[1]) and len(r0[1].params) == len(e.args):
+            hb = body_no_doc(r0[1])
+            if len(hb) == 1 and isinstance(hb[0], ast.Return) and hb[0].value is not None:
+                from ..inline import Subst
+                import copy as _copy
+                inner = Subst(dict(zip(r0[1].params, e.args))).visit(_copy.deepcopy(hb[0].value))
+                ast.fix_missing_locations(inner)
+                t_ = reducer_term(prog, f, inner, data, axis, _depth + 1)
+                if t_ is None:
+                    return None
+                red_, pre_, post_, ax_ = t_
+                if post == 'neg':
+                    post_ = {'id': 'neg', 'neg': 'id'}.get(post_)
+                return (red_, pre_, post_, ax_) if post_ else None
     name = last(norm(e.func))
     sibling = None
     if isinstance(e.func, ast.Attribute) and (prog.dotted(f.mod, e.func) or '').startswith('numpy'):
@@ -752,11 +793,14 @@ def reducer_term(prog, f, e, data, axis, _depth=0):
         return None
     if n2n is not None:
         kws = {k.arg: norm(k.value).replace(' ', '') for k in n2n.keywords}
-        if len(n2n.args) > 1 or kws.get('nan', '0') not in ('0', '0.0'):
-            return None
         infs = ('_np.inf', 'np.inf', 'numpy.inf', "float('inf')", 'math.inf')
-        kept = kws.get('posinf') in infs and kws.get('neginf') in tuple('-' + x for x in infs)
-        return f'nan_to_num:{name}:{"kept" if kept else "rewritten"}', pre, post, ax
+        ninfs = tuple('-' + x for x in infs)
+        nanv = kws.get('nan', '0')
+        nan_kind = '0' if nanv in ('0', '0.0') else ('-inf' if nanv in ninfs else ('+inf' if nanv in infs else None))
+        if len(n2n.args) > 1 or nan_kind is None:
+            return None
+        kept = kws.get('posinf') in infs and kws.get('neginf') in ninfs
+        return f'nan_to_num:{name}:{"kept" if kept else "rewritten"}:{nan_kind}', pre, post, ax
     if sibling is not None:
         # a decorated sibling discriminant: its own term, composed; without an axis argument its wrapper default (-1) applies
         body = body_no_doc(sibling)
@@ -860,15 +904,16 @@ def d4(ctx, prog):
             continue
         red, pre, post, ax = t
         if red.startswith('nan_to_num:'):
-            _, inner_red, infs = red.split(':')
-            if inner_red not in ('sum',):
-                ctx.fail('C15-D4', key, f'{name} replaces NaN by 0 and reduces with `{inner_red}`: 0 is not neutral for it, NaN entries are not ignored but counted as 0', f.where(body[0]))
+            _, inner_red, infs, nan_kind = red.split(':')
+            neutral = {'sum': '0', 'nansum': '0', 'max': '-inf', 'amax': '-inf', 'nanmax': '-inf', 'min': '+inf', 'amin': '+inf', 'nanmin': '+inf'}.get(inner_red)
+            if neutral != nan_kind:
+                ctx.fail('C15-D4', key, f'{name} replaces NaN by {nan_kind} and reduces with `{inner_red}`: {nan_kind} is not neutral for it, NaN entries are not ignored but counted as {nan_kind}', f.where(body[0]))
                 continue
             if infs != 'kept':
                 ctx.fail('C15-D4', key, f'{name} passes the data through nan_to_num without keeping the infinities (posinf / neginf): an infinite entry is replaced by the largest finite number, '
                          'so more than the NaN entries is changed (a +inf entry no longer gives inf, +inf with -inf no longer gives NaN)', f.where(body[0]))
                 continue
-            red = 'nansum'
+            red = {'sum': 'nansum', 'max': 'nanmax', 'amax': 'nanmax', 'min': 'nanmin', 'amin': 'nanmin'}.get(inner_red, inner_red)
         if red in NAN_BLIND:
             ctx.fail('C15-D4', key, f'{name} reduces with `{red}`, which propagates NaN: NaN entries are not ignored (use {NAN_BLIND[red]})', f.where(body[0]))
             continue
